@@ -124,6 +124,19 @@ func getDetector(w *World) *detInfo {
 			d.Role["weights"] = fi
 		}
 	}
+	// the working threshold: the only uint16 field that is written outside the constructor (the dynamic
+	// threshold computation); its initial value is checked separately (C07.K2)
+	if _, ok := d.Role["tempThresh"]; !ok {
+		cands := []int{}
+		for fi := 0; fi < d.St.NumFields(); fi++ {
+			if bt, ok := d.St.Field(fi).Type().Underlying().(*types.Basic); ok && bt.Kind() == types.Uint16 && d.CI.Mutable[fi] {
+				cands = append(cands, fi)
+			}
+		}
+		if len(cands) == 1 {
+			d.Role["tempThresh"] = cands[0]
+		}
+	}
 	// numPixels: float field whose term mentions rowStop/columnStop differences
 	for fi, t := range d.CI.Stores {
 		if isFloat(d.St.Field(fi).Type()) {
